@@ -723,14 +723,19 @@ class Machine(object):
             "rule": ("one evaluation = one of: generate() under a seeded or adversarial entropy tape (RSA 1024/1025[/1536] with several "
                      "exponents, DSA on a fixed domain, ECC on nine curves, ElGamal in the thorough tier), RSA generate() under an "
                      "engineered tape that offers a second prime at a chosen distance from the first, 24 damaged copies of one exported "
-                     "key file imported, or 16 damaged component tuples constructed; every key handed out is checked by an independent "
-                     "invariant checker; non-trivial = every case; distinct = SHA-256 of the canonical case"),
+                     "key file imported, 16 damaged component tuples constructed, adversarially consistent tuples (a composite where a prime "
+                     "is required, three-prime moduli as (n, e, d)), points that miss the curve by k*2^j, DSA.generate with the private-"
+                     "value bytes of the tape replaced by boundary values, or ECC.construct / seed keys / point equality with every "
+                     "allocation inside the call failed in turn (build variant alloc); every key handed out is checked by an "
+                     "independent invariant checker; non-trivial = every case; distinct = SHA-256 of the canonical case"),
             "state_measure": "distinct (route, family/curve, tape or file class) tuples",
             "components": {"real": ["RSA/DSA/ElGamal/ECC generate, construct, import_key, Crypto.Math.Primality, EC C code"],
-                           "stub": ["randfunc (recording / substituting tape)", "storage between export and import", "os.urandom (varied to test tape-determinism)"]},
-            "assumptions": ["narrow claim: only the entropy-tape, storage-fault and single-component-fault routes are decided; "
+                           "stub": ["randfunc (recording / substituting tape)", "storage between export and import", "os.urandom (varied to test tape-determinism)",
+                                    "malloc/calloc/posix_memalign of the C extensions (shim: the i-th request fails)"]},
+            "assumptions": ["narrow claim: only the entropy-tape, storage-fault, component-fault and allocation-fault routes are decided; "
                             "the input-space part (deny-list of low-order Montgomery points, every malformed tuple) is not claimed",
                             "primality in the checker: Miller-Rabin with 40 fixed bases"],
-            "expected_probes": ["damaged_key_accepted", "damaged_tuple_accepted", "close_prime_candidate_refused", "toy_tuple_refused", "near_curve_point_refused"],
+            "expected_probes": ["damaged_key_accepted", "damaged_tuple_accepted", "close_prime_candidate_refused", "toy_tuple_refused", "near_curve_point_refused",
+                                "alloc_failure_raised", "dsa_private_value_engineered"],
             "not_reached": ["ElGamal.generate in the quick tier (safe-prime search too slow)"],
         }
